@@ -63,8 +63,10 @@ LEAVES = {
     "KDRandAugmentCustom": [(RA, ["PIL"])],
     "KDRandomAdditiveGaussianNoise": [(dict(p=0.5, std=0.1), ["T3"])],
     "KDRandomColorJitter": [(dict(p=0.8, **CJ), ["T3", "PIL"])],
-    "KDRandomCrop": [(dict(size=4), ["T3", "PIL", "T3x"]), (dict(size=8, padding=1), ["T3"])],
-    "KDTwoRandomCrop": [(dict(size=4), ["T3"]), (dict(size=4, overlap_min=0.2, overlap_max=0.6, tries=3), ["PIL"])],
+    "KDRandomCrop": [(dict(size=4), ["T3", "PIL", "T3x"]), (dict(size=8, padding=1), ["T3"]),
+                     (dict(size=10, pad_if_needed=True), ["T3", "T3b", "T3x"]), (dict(size=(5, 30), pad_if_needed=True, padding=1), ["T3x", "T3b"])],
+    "KDTwoRandomCrop": [(dict(size=4), ["T3"]), (dict(size=4, overlap_min=0.2, overlap_max=0.6, tries=3), ["PIL"]),
+                        (dict(size=10, pad_if_needed=True), ["T3", "T3b"])],
     "KDRandomErasing": [(dict(p=0.5, mode="pixelwise"), ["T3"]), (dict(p=1.0, mode="channelwise", max_count=3), ["T3b"])],
     "KDRandomGaussianBlurPIL": [(dict(p=0.5, sigma=(0.1, 2.0)), ["PIL"])],
     "KDRandomGaussianBlurTV": [(dict(p=0.5, kernel_size=3, sigma=(0.1, 2.0)), ["T3"])],
